@@ -10,11 +10,13 @@ class C10(common.SpecCheck):
     unit_fn = "units.c10:c10_unit"
     QUICK = {"nseeds": 8, "specs": 150, "round": 150, "budget": 0}
     TIEBREAKS = {"quick": 12, "thorough": 48}
-    rule = ("specs of all classes (S, O, A, K, T in plain mode, M in metrics mode) driven through the public IR "
+    rule = ("specs of all classes (S, O, A, A+ (two projected tensors, occupancy split of an index-math rank), K, T in plain mode, M and Mp (partitioned, "
+            "with mergers) in metrics mode) driven through the public IR "
             "API (Program.add_einsum, FlowGraph(program, metrics, ['hoist']), get_graph, get_sorted). Layer 1: the order "
             "each real hash seed produces. Layer 2 (fault/schedule seam): teaal.ir.flow_graph.nx is replaced, in the unit "
             "only, by a proxy whose topological_sort is Kahn's algorithm picking among ready nodes with the unit's PRNG "
-            "(12 quick / 48 thorough linear extensions per (spec, seed)). Invariants: sorted is a permutation of the "
+            "(12 quick / 48 thorough linear extensions per (spec, seed): newest-first, oldest-first, uniformly random, and "
+            "targeted ones that schedule one PRNG-chosen node as early / as late as its recorded dependences allow). Invariants: sorted is a permutation of the "
             "graph's nodes; every edge (u,v) has pos(u) < pos(v); Loop/EndLoop well nested in loop order, Body innermost, "
             "Footer outside; nothing before Loop(r) is a descendant of Loop(r). Because a lost edge would pass vacuously, "
             "the full translation also runs under each tie-break: text must stay closed and (plain mode) still compute the "
